@@ -20,6 +20,8 @@ Inductive c18_case :=
 (* raw enumerate: the store, the limit form value (None absent, Some None garbage), maxwaitsec given?, HTTP 200?, the pages
    obtained by following continueAfter (keys only) *)
 | CEnum (m : smap) (limit : option (option nat)) (wait : bool) (ok : bool) (pages : list (list bytes))
+(* the same against a storage that announces its own per-request maximum (blobserver.MaxEnumerateConfig) *)
+| CEnumMax (m : smap) (max : nat) (limit : option (option nat)) (ok : bool) (pages : list (list bytes))
 (* raw stat: asked refs (blob1..blobN), HTTP 200?, the refs in the answer (sorted, with multiplicity) *)
 | CStat (m : smap) (refs : list bytes) (ok : bool) (found : list bytes)
 (* Client.StatBlobs: asked refs, the refs the callback saw (sorted, with multiplicity) *)
@@ -30,6 +32,11 @@ Definition check (k : c18_case) : bool :=
   | CEnum m limit wait ok pages =>
       let lim := eff_limit limit default_limit max_limit in
       let first := if wait then enum_response_wait enum_wait_loop_runs m lim else enum_response m [] lim in
+      let rest := match snd first with Some a => client_enumerate (S (length m)) m a lim | None => [] end in
+      ok && bll_eqb (map (map fst) (fst first :: rest)) pages
+  | CEnumMax m max limit ok pages =>
+      let lim := eff_limit limit default_limit max in
+      let first := enum_response m [] lim in
       let rest := match snd first with Some a => client_enumerate (S (length m)) m a lim | None => [] end in
       ok && bll_eqb (map (map fst) (fst first :: rest)) pages
   | CStat m refs ok found =>
